@@ -21,6 +21,9 @@ type fakeRegistry struct {
 	blobs     map[string][]byte
 	manifests map[string]fakeManifest
 	uploads   int
+	// validate: like a real registry, refuse a manifest whose config / layers / blobs are not
+	// present (MANIFEST_BLOB_UNKNOWN); foreign layers and the subject are exempt
+	validate bool
 }
 
 type fakeManifest struct {
@@ -98,6 +101,14 @@ func (f *fakeRegistry) serve(w http.ResponseWriter, r *http.Request) {
 			w.WriteHeader(http.StatusBadRequest)
 			return
 		}
+		if f.validate {
+			if missing := f.missingBlob(data); missing != "" {
+				w.Header().Set("Content-Type", "application/json")
+				w.WriteHeader(http.StatusBadRequest)
+				fmt.Fprintf(w, `{"errors":[{"code":"MANIFEST_BLOB_UNKNOWN","message":"blob unknown to registry","detail":%q}]}`, missing)
+				return
+			}
+		}
 		f.manifests[sha(data)] = fakeManifest{data: data, mediaType: r.Header.Get("Content-Type")}
 		var m struct {
 			Subject *struct {
@@ -128,4 +139,32 @@ func newRegistryTarget() storage {
 	}
 	repo.Client = newFakeRegistry()
 	return repo
+}
+
+func (f *fakeRegistry) missingBlob(manifest []byte) string {
+	type d struct {
+		MediaType string `json:"mediaType"`
+		Digest    string `json:"digest"`
+	}
+	var m struct {
+		Config *d  `json:"config"`
+		Layers []d `json:"layers"`
+		Blobs  []d `json:"blobs"`
+	}
+	if json.Unmarshal(manifest, &m) != nil {
+		return "unparsable manifest"
+	}
+	all := append(append([]d{}, m.Layers...), m.Blobs...)
+	if m.Config != nil {
+		all = append(all, *m.Config)
+	}
+	for _, x := range all {
+		if strings.Contains(x.MediaType, "nondistributable") {
+			continue
+		}
+		if _, ok := f.blobs[x.Digest]; !ok {
+			return x.Digest
+		}
+	}
+	return ""
 }
